@@ -291,7 +291,8 @@ fn run_bits(bits: &Bits, case: &Case, seqs: &[Vec<ItOp>], rep: &mut Report, d: &
             }
         }
         _ => {
-            let rl = rl_from(bits);
+            // the builder history varies with the case: maximal runs, adjacent pieces, interleaved set_len calls, single bits
+            let rl = crate::props::c11::rl_by_decomposition(bits, (case.start % 6) as u8, &[(case.start >> 3) as u8, (case.start >> 5) as u8, (case.start >> 7) as u8], case.start & 64 != 0);
             match kind {
                 16 | 17 => go!(drive_fwd_exact, rl.iter(), &bools, "RLVector::iter"),
                 18 => go!(drive_fwd_exact, rl.one_iter(), &ones, "RLVector::one_iter"),
